@@ -32,6 +32,19 @@ class NE(NodeMixin):
         return 0
 
 
+class NL(NodeMixin, list):
+    """a node that is also a list (payload container by inheritance)"""
+
+    def __init__(self, i):
+        list.__init__(self, ["payload%d" % i] * (i % 2))
+        self.i = i
+
+    __hash__ = object.__hash__
+
+    def __eq__(self, other):
+        return self is other
+
+
 ITERS = {
     "pre": PreOrderIter,
     "post": PostOrderIter,
@@ -65,7 +78,7 @@ def restricted(body):
         n = cfg["N"] if cfg.get("exactN") else nondet_int(1, cfg["N"], "n")
         pv = pick_parent_vector(n)
         parent, children = model_from_pv(pv)
-        nodes = build(pv, N)
+        nodes = build(pv, NE if cfg.get("cls") == "eq" else N)
         s = nondet_int(0, n - 1, "start") if cfg.get("starts", True) else 0
         if cfg.get("concrete_maxlevel"):
             ml = nondet_int(-2, n + 1, "maxlevel")  # -2 stands for None; -1..n+1 concrete (fast mode, no tracing of the real code)
@@ -147,7 +160,7 @@ def c05_body(cfg):
     s = nondet_int(0, n - 1, "start")
     k = nondet_int(0, 2, "consume")  # 0: full only; 1,2: also next() that many times on a fresh iterator
     with concrete_region():
-        nodes = build(pv, NE if cfg.get("cls") == "eq" else N)
+        nodes = build(pv, {"eq": NE, "list": NL}.get(cfg.get("cls"), N))
         before = real_map(nodes)
         pre = m_preorder(children, s)
         levels = m_levels(children, s)
